@@ -256,10 +256,13 @@ Definition parse_cfg (w : word) : option config :=
     if (0 <=? l) && (l <=? max_i64) && (0 <=? d) && (0 <=? k) && (0 <=? e)
     then Some (mkCfg l (z2b s) d k e) else None
   | [l; s; d; k; e; p] =>
-    (* p = 1: end-to-end path (real client transport): client side, no legacy Decompressor *)
+    (* p = 1: end-to-end path (real client transport): client side; d <> 0 there means that
+       the channel carries a legacy WithDecompressor whose Type() differs from every response
+       encoding: csAttempt.recvMsg must drop it (decompressorV0 = nil) and decode with the
+       compressor registered under the response's grpc-encoding, i.e. behave as with d = 0 *)
     if (0 <=? l) && (l <=? max_i64) && (0 <=? d) && (0 <=? k) && (0 <=? e) &&
-       ((p =? 0) || ((p =? 1) && (s =? 0) && (d =? 0)))
-    then Some (mkCfg l (z2b s) d k e) else None
+       ((p =? 0) || ((p =? 1) && (s =? 0)))
+    then Some (mkCfg l (z2b s) (if p =? 1 then 0 else d) k e) else None
   | _ => None
   end.
 
@@ -412,7 +415,10 @@ Fixpoint clauses_from (e2e : bool) (c : config) (i : Z) (sp : list (option (res 
          (obs : list word) : list (Z * Z * bool) :=
   match sp, obs with
   | [], [] => []
-  | None :: sp', o :: obs' => (0, i, word_eqb o []) :: clauses_from e2e c (i + 1) sp' obs'
+  | None :: sp', o :: obs' =>
+    (* nothing is observed at a chunk/oracle op; on the end-to-end path also at a RecvMsg
+       after the first non-message result (a result there would be a delivery after an error) *)
+    ((if e2e then 6 else 0), i, word_eqb o []) :: clauses_from e2e c (i + 1) sp' obs'
   | Some (r, _, _) :: sp', o :: obs' =>
     match o with
     | [k; code; len; ck; pulled; pos] =>
